@@ -122,6 +122,7 @@ type Engine struct {
 	sortSrc string
 	skippedPanics int
 	matBack map[string]*Loc
+	runesFlag int
 }
 
 func (e *Engine) note(f string, a ...any) {
